@@ -2,7 +2,9 @@
 import itertools
 from typing import Any
 
+from ..core import Composite
 from ..kernel_prop import KernelProp
+from .c08 import C08
 
 PROBE_CB = {"id": 900, "pass": False, "async": False, "body": [], "regs": [], "raises": None}
 
@@ -23,7 +25,8 @@ def probes(c: int, t: int = 0) -> list[dict[str, Any]]:
     ]
 
 
-class C13(KernelProp):
+class C13Kernel(KernelProp):
+    kinds = ("ctx",)
     id = "C13"
     tags = ("C13",)
     quick_cases = 400
@@ -31,7 +34,7 @@ class C13(KernelProp):
     n_ops = (8, 30)
     weights = {"new": 10, "enter": 14, "exit": 10, "add": 12, "addf": 8, "getnw": 10, "get": 8, "finish": 1,
                "getall": 4, "addtd": 10, "current": 1, "parent": 0, "spawn": 2, "state": 12}
-    gen_kwargs = {"max_ctx": 6, "malformed": 0.02, "wrong_state": 0.45, "exc_end": 0.5, "td_depth": 1, "p_cancel": 0.1}
+    gen_kwargs = {"max_ctx": 6, "malformed": 0.02, "wrong_state": 0.45, "exc_end": 0.5, "td_depth": 1, "p_cancel": 0.1, "p_manual": 0.05}
     rule = ("the full state x operation matrix (never entered / open / inside a teardown callback / closed after clean, "
             "raising-block, cancelled-block, raising-teardown exits) x (add_resource, add_resource_factory, get_resource, "
             "get_resource_nowait, add_teardown_callback, re-entry, closed flag) on both back-ends (exhaustive, both "
@@ -93,6 +96,32 @@ class C13(KernelProp):
 
     def nontrivial(self, case, impl):
         return any(s.startswith("runtimeError") or s == "corruption" for r in impl for s in r["res"])
+
+
+class C13Tasks(C08):
+    """While a root context is still inside its own exit - its callbacks have run, cut short by a cancellation,
+    and it is waiting for service tasks that are still cleaning up - it is being torn down, not closed: a
+    lookup made by such a task must not be refused."""
+    id = "C13"
+    crash = 0.45
+
+    def monitor(self, case, impl):
+        return [f"[C13] task {e['l'][1]}: {e['l'][2]}" for e in impl["trace"] if e["l"][0] == "probeFailed"]
+
+    def nontrivial(self, case, impl):
+        labels = [e["l"] for e in impl["trace"]]
+        return any(l[0] == "taskEnded" and l[2] is not None for l in labels) and any(l[0] == "cleanupTick" for l in labels)
+
+
+class C13(Composite):
+    id = "C13"
+    quick_cases = C13Kernel.quick_cases
+    thorough_cases = C13Kernel.thorough_cases
+    parts = [(7, C13Kernel()), (1, C13Tasks())]
+    rule = C13Kernel.rule + ("; one case in eight is a service-task program (as in C08) with frequent task crashes: tasks "
+                             "that are still cleaning up while the root context waits for them inside its exit look "
+                             "resources up in it")
+    assumptions = C13Kernel.assumptions
 
 
 PROP = C13()
